@@ -7,7 +7,7 @@ from c15 import shapes
 from common import Rule, finish
 from hirtab import ANY, C, L, T, adt_variants, callees, candidates, top_match
 from hirutil import find, strip, walk
-from mirutil import Body, op_local
+from mirutil import Body, op_local, result_wrappers
 
 PT = "jaq_core::load::parse::Term"
 CT = "jaq_core::compile::CallType"
@@ -293,6 +293,8 @@ def run(facts, tier):
 
     # ---------------- G4.4 growth guards
     g4 = Rule("G4.4", "growth guards: the trampoline and the fold re-push an iterator only if, after it has been advanced, its size hint is not (0, Some(0)) -- exhausted iterators are not left on the stack; dropping a lazy list is iterative", floor=3)
+    HINT_WRAPPERS = {re.sub(r"<[^<>]*>", "", d) for d in result_wrappers(facts, r"core::iter::traits::iterator::Iterator::size_hint$", {"jaq_core"})}
+    HINT_WRAPPERS |= result_wrappers(facts, r"core::iter::traits::iterator::Iterator::size_hint$", {"jaq_core"})
     for rx, crate, what in [(r"^<jaq_core::stack::Stack<.*> as core::iter::traits::iterator::Iterator>::next$", "jaq_core", "Stack::next"),
                             (r"^jaq_core::fold::fold::\{closure#0\}$", "jaq_core", "fold")]:
         js = facts.mir_find(rx, crate)
@@ -301,17 +303,15 @@ def run(facts, tier):
             continue
         b = Body(js[0])
         hints = b.find_calls(r"core::iter::traits::iterator::Iterator::size_hint$")
+        # the same test made through a first-party helper (e.g. `is_exhausted(&it)`)
+        hints += [i for i, t in b.calls() if (t.get("fn") or "") in HINT_WRAPPERS or (t.get("res") or "") in HINT_WRAPPERS]
         nexts = b.find_calls(r"core::iter::traits::iterator::Iterator::next$")
         pushes = b.find_calls(r"alloc::vec::Vec::<T, A>::push$")
         ok_any = False
         for h in hints:
-            recv = set(b.arg_locals(h))
-            # locals the receiver reference points to
-            base = set()
-            for src, dsts in b.flow().items():
-                if dsts & recv:
-                    base.add(src)
-            after_next = [n for n in nexts if b.node_dominates(n, h) and (set(b.arg_locals(n)) & b.derived_from(base) or any(set(b.flow().get(x, ())) & set(b.arg_locals(n)) for x in base))]
+            # the iterator tested is the iterator advanced: both receivers are borrows of the same local
+            roots = b.ref_roots(b.arg_locals(h))
+            after_next = [n for n in nexts if b.node_dominates(n, h) and b.ref_roots(b.arg_locals(n)) & roots]
             sws = b.switches_on([b.call_result_local(h)])
             guarded = [p for p in pushes if any(b.controlled_by(p, sw) for sw in sws)]
             ok = bool(after_next) and bool(guarded)
